@@ -24,9 +24,9 @@ type c19Req struct {
 // SV_C19_tally: one or two allegation requests with recorded votes against
 // validators with an arbitrary stake, tallied at block end.
 //
-// sv:bounds request req1 against validator M with 3 possible voters (distinct addresses, as Vote() maintains), each having voted yes, no or not at all; optionally a second request req2 against another validator N with 2 possible voters, inserted before or after req1 in the tracker; activeCount in 1..4; evidence options of the devnet genesis (vote share 50/100, allegation share 50/100, penalty 30/100, bounty 50/100); M's stake S (whole OLT) symbolic, 0 <= S < 2^40, N's stake 1000, each held by its own stake address; nobody frozen before
+// sv:bounds request req1 against validator M with 3 possible voters (distinct addresses, as Vote() maintains), each having voted yes, no or not at all; optionally a second request req2 against another validator N with 2 possible voters, inserted before or after req1 in the tracker; activeCount in 1..4; evidence options of the devnet genesis (vote share 50/100, allegation share 50/100, penalty 30/100, bounty 50/100); M's stake S (whole OLT) symbolic, 0 <= S < 2^40, N's stake 1000, each held by its own stake address; M's stake address also holds a symbolic stake 0 <= X < 2^40 with a third validator that nobody accuses; nobody frozen before
 // sv:outside more than two concurrent requests; other option values; votes of validators that are no longer active (the code counts every recorded vote: noted, not asserted); histories
-// sv:goal for each request on its own votes, with required = ceil(active*50/100): guilty iff yes/required > 1/2, else innocent iff no/required > 1/2, else undecided; guilty implies the accused is frozen, its stake records (validator total, its own locked amount) drop by exactly round(S*30/100), the bounty address receives exactly that penalty * 10^18 * 50/100, and the same amount is recorded as the delayed unstake applied to the validator record in the next block; innocent/undecided changes neither stake nor bounty nor frozen status; a decided request leaves the tracker
+// sv:goal for each request on its own votes, with required = ceil(active*50/100): guilty iff yes/required > 1/2, else innocent iff no/required > 1/2, else undecided; guilty implies the accused is frozen, its stake records (validator total, its own locked amount) drop by exactly round(S*30/100), the bounty address receives exactly that penalty * 10^18 * 50/100, and the same amount is recorded as the delayed unstake applied to the validator record in the next block; innocent/undecided changes neither stake nor bounty nor frozen status; a decided request leaves the tracker; the stake M's stake address holds with the third validator is never touched and never enters the penalty base
 func SV_C19_tally() {
 	e := c10NewEnv(2, 1, 4)
 	S := sv.Int64("stake")
@@ -40,6 +40,13 @@ func SV_C19_tally() {
 		} else {
 			reqs = []*c19Req{r2, reqs[0]}
 		}
+	}
+	// M's stake address also holds a stake with a validator nobody accuses
+	other := sv.Int64("otherStake")
+	sv.Assume(other >= 0 && other < 1<<40)
+	otherV := c10Candidate(9).addr
+	if err := e.vctx.Delegators.Stake(otherV, e.cands[0].addr, *balance.NewAmount(other)); err != nil {
+		sv.Unreachable("other stake record")
 	}
 	es := e.vctx.EvidenceStore
 	at, _ := es.GetAllegationTracker()
@@ -126,4 +133,7 @@ func SV_C19_tally() {
 		sv.Observe("frozen:"+r.id, frozen)
 	}
 	sv.Assert(gain.Cmp(wantGain) == 0, "bounty-receives-exactly-its-share-of-the-penalties")
+	O, _ := e.vctx.Delegators.GetValidatorDelegationAmount(otherV, e.cands[0].addr)
+	OT, _ := e.vctx.Delegators.GetValidatorAmount(otherV)
+	sv.Assert(O.BigInt().Cmp(big.NewInt(other)) == 0 && OT.BigInt().Cmp(big.NewInt(other)) == 0, "stake-lodged-with-another-validator-is-untouched")
 }
